@@ -782,6 +782,12 @@ class FixedRowWriter(AbstractRowWriter):
         self.location.advance_line()
 
 
+#: Limits of Excel worksheets.
+_MAX_XLSX_ROW_COUNT = 1048576
+_MAX_XLSX_COLUMN_COUNT = 16384
+_MAX_XLSX_ITEM_LENGTH = 32767
+
+
 class XlsxRowWriter(AbstractRowWriter):
     """
     A writer for Excel 2007+ (:file:`*.xlsx`) documents.
@@ -840,6 +846,20 @@ class XlsxRowWriter(AbstractRowWriter):
         assert row_to_write is not None
 
         row_index = self.location.line
+        # Refuse rows that do not fit into a worksheet before writing any of its items so a rejected row leaves no
+        # trace and the rows after it end up where they belong.
+        if row_index >= _MAX_XLSX_ROW_COUNT or len(row_to_write) > _MAX_XLSX_COLUMN_COUNT:
+            raise errors.DataFormatError(
+                "cannot write row to Excel worksheet: exceeds maximum of %d rows or %d columns"
+                % (_MAX_XLSX_ROW_COUNT, _MAX_XLSX_COLUMN_COUNT),
+                self.location,
+            )
+        for item in row_to_write:
+            if isinstance(item, str) and len(item) > _MAX_XLSX_ITEM_LENGTH:
+                raise errors.DataFormatError(
+                    "cannot write item to Excel worksheet: exceeds maximum of %d characters" % _MAX_XLSX_ITEM_LENGTH,
+                    self.location,
+                )
         for item in row_to_write:
             assert item is not None
             assert not isinstance(item, bytes), "item must be a string: %r" % item
